@@ -22,6 +22,25 @@ def mod(name):
     return importlib.import_module("ladim_plugins.%s.ibm" % name)
 
 
+def cfg_dt(case):
+    """the time step as the configuration carries it: an int when the case asks for it (and it is integral)"""
+    dt = case["dt"]
+    if case.get("int_dt") and float(dt) == int(dt):
+        return int(dt)
+    return dt
+
+
+def alive0(case):
+    """optional case key `alive0`: liveness flags of the particles when `update_ibm` is called (default: all alive)"""
+    a = case.get("alive0")
+    return None if a is None else np.asarray(a, dtype=bool).copy()
+
+
+def state_dt(case):
+    """`state.dt` for the modules whose cases have no `sdt` key: optional case key `state_dt`, default the configured dt"""
+    return case.get("state_dt", case["dt"])
+
+
 def tail_injector(rng, p=0.15):
     """post-processes recorded draws: places tails and exact boundary values on a share of entries"""
     def inj(kind, params, v):
@@ -58,7 +77,7 @@ def place_z(rng, H, n):
 
 
 # ======================================================================================= chemicals
-def chem_case(rng, n=None, horz=None, mix=None):
+def chem_case(rng, n=None, horz=None, mix=None, land=None):
     n = rng.randrange(0, 9) if n is None else n
     h0 = rng.choice([5.0, 12.5, 50.0, 300.0])
     slope = rng.choice([0.0, 0.0, h0 / 64, -h0 / 128])
@@ -85,8 +104,16 @@ def chem_case(rng, n=None, horz=None, mix=None):
     H = env.depth(x, y)
     z = place_z(rng, H, n)
     age = np.array([rng.choice([0.0, 50.0, (lifespan or 100.0) - dt, (lifespan or 100.0), 1e5]) for _ in range(n)])
-    return dict(kind="chemicals", env=env, dt=dt, vertadv=rng.random() < 0.6, mixing=mixing, horz=hz,
+    case = dict(kind="chemicals", env=env, dt=dt, vertadv=rng.random() < 0.6, mixing=mixing, horz=hz,
                 lifespan=lifespan, x=x, y=y, z=z, age=age, land=rng.choice(["freeze", "reposition"]))
+    if land is not None:
+        case["land"] = land
+        if land == "coastal_diffusion":
+            env.coastx = rng.choice([4.5, 10.5, 25.0])       # some / about half / all particles are coastal
+    # configuration keys left to their defaults, integer time step (as written in a ladim.yaml)
+    case["omit_defaults"] = rng.random() < 0.3
+    case["int_dt"] = rng.random() < 0.3
+    return case
 
 
 def chem_ibm(case):
@@ -105,10 +132,17 @@ def chem_ibm(case):
         ibmconf["horzdiff_max"] = case["horz"][1]
     if case["lifespan"] is not None:
         ibmconf["lifespan"] = case["lifespan"]
+    if case.get("omit_defaults"):
+        # every key whose configured value IS the documented default is left out
+        for k, dflt in (("vertical_advection", True), ("land_collision", "reposition"), ("vertdiff_dt", case["dt"]),
+                        ("vertdiff_dz", 0.0), ("vertdiff_max", float("inf")), ("horzdiff_min", 0.0),
+                        ("horzdiff_max", float("inf"))):
+            if k in ibmconf and type(ibmconf[k]) is type(dflt) and ibmconf[k] == dflt:
+                del ibmconf[k]
     import logging
     logging.disable(logging.WARNING)
     try:
-        return mod("chemicals").IBM(dict(dt=case["dt"], ibm=ibmconf))
+        return mod("chemicals").IBM(dict(dt=cfg_dt(case), ibm=ibmconf))
     finally:
         logging.disable(logging.NOTSET)
 
@@ -127,6 +161,8 @@ def chem_cfg_toks(case):
     else:
         t += ["1", F(case["horz"][0]), F(case["horz"][1])]
     t.append(OPT(case["lifespan"]))
+    # the collision handler (and the clamp to the sea bed that follows it) runs for reposition / coastal_diffusion
+    t.append(B(case.get("land", "freeze") in ("reposition", "coastal_diffusion")))
     return " ".join(t)
 
 
@@ -144,10 +180,22 @@ def chem_run(case, seed, drv=None, inject=None, ibm=None, state=None):
     env = case["env"]
     n = len(case["x"])
     ibm = ibm or chem_ibm(case)
-    state = state or real_state(dt=case["dt"], X=case["x"].copy(), Y=case["y"].copy(), Z=case["z"].copy(),
-                                age=case["age"].copy())
+    state = state or real_state(dt=state_dt(case), alive=alive0(case), X=case["x"].copy(), Y=case["y"].copy(),
+                                Z=case["z"].copy(), age=case["age"].copy())
     before = dict(x=state.X.copy(), y=state.Y.copy(), z=state.Z.copy(), age=state["age"].copy(),
                   alive=state.alive.copy())
+    # who is re-seeded inside its cell by the collision handler (decided as the handler decides: remembered
+    # position == current position for `reposition`, the grid's coastal mask for `coastal_diffusion`;
+    # whether that decision is right is C11's subject, here it only fixes the draw schedule and the model's flag)
+    order = np.zeros(0, dtype=int)
+    if case["land"] == "reposition" and len(np.atleast_1d(ibm.pid)):
+        _, io, inw = np.intersect1d(ibm.pid, state.pid, return_indices=True)
+        on = (np.asarray(ibm.x)[io] == state.X[inw]) & (np.asarray(ibm.y)[io] == state.Y[inw])
+        order = inw[on]
+    elif case["land"] == "coastal_diffusion":
+        order = np.nonzero(env.close_to_land(state.X, state.Y))[0]
+    stuck = np.zeros(n, bool)
+    stuck[order] = True
     with RngRecorder(seed, inject) as rec:
         ibm.update_ibm(env.grid(), state, env.forcing())
     after = dict(x=state.X.copy(), y=state.Y.copy(), z=state.Z.copy(), age=state["age"].copy(),
@@ -156,19 +204,26 @@ def chem_run(case, seed, drv=None, inject=None, ibm=None, state=None):
     m = case["mixing"]
     nsub = 0 if m[0] == "none" else 1 if m[0] == "const" else len(py_substeps(case["dt"], m[1]))
     off = 2 if case["land"] in ("reposition", "coastal_diffusion") else 0
-    nstuck = int(case.get("nstuck", 0))
+    nstuck = int(case.get("nstuck", len(order)))
     expected = [("rand", (nstuck,))] * off + [("rand", (n,))] * (nsub + (2 if case["horz"] is not None else 0))
     got = rec.schedule()
     res = dict(before=before, after=after, model=None, sched=(expected, got), meta={}, n=n)
     draws = [l[3] for l in rec.log][off:]
     res["draws"] = draws
+    repx = np.zeros(n); repy = np.zeros(n)
+    if off and expected == got and len(order):
+        repx[order] = rec.log[0][3]
+        repy[order] = rec.log[1][3]
+    res["meta"]["stuck"] = stuck
+    res["meta"]["rep_draws"] = (repx, repy)
     if drv is not None and expected == got:
         idx = []
         for i in range(n):
             vert = [draws[k][i] for k in range(nsub)]
             hx = draws[nsub][i] if case["horz"] is not None else 0.0
             hy = draws[nsub + 1][i] if case["horz"] is not None else 0.0
-            idx.append(drv.ask("chem.update", chem_cfg_toks(case), env.toks(), "0", F(0), F(0), L(vert), F(hx), F(hy),
+            idx.append(drv.ask("chem.update", chem_cfg_toks(case), env.toks(), B(stuck[i]), F(repx[i]), F(repy[i]),
+                               L(vert), F(hx), F(hy),
                                F(before["x"][i]), F(before["y"][i]), F(before["z"][i]), F(before["age"][i]),
                                B(before["alive"][i])))
 
@@ -184,6 +239,12 @@ def chem_run(case, seed, drv=None, inject=None, ibm=None, state=None):
         res["finish"] = finish
     # preconditions of the property (single vertical step smaller than the local depth)
     Hb = env.depth(before["x"], before["y"])
+    if stuck.any():
+        # a re-seeded particle takes its vertical steps at the new position: the step must be smaller than the
+        # water depth there as well (np.round(x) - 0.5 + u, as `reposition` / `coastal_diffusion` compute it)
+        xr = np.where(stuck, np.round(before["x"]) - 0.5 + repx, before["x"])
+        yr = np.where(stuck, np.round(before["y"]) - 0.5 + repy, before["y"])
+        Hb = np.minimum(Hb, env.depth(xr, yr))
     kmax = max(env.k0, env.k1 if env.kkind else env.k0, env.k0 + env.k1 * float(np.max(Hb)) if (env.kkind == 1 and n) else 0.0)
     if m[0] == "const":
         amp = math.sqrt(2 * m[1]) * math.sqrt(3 * case["dt"])
@@ -193,6 +254,11 @@ def chem_run(case, seed, drv=None, inject=None, ibm=None, state=None):
         amp = 0.0
     wmax = abs(env.w0) + abs(env.wz) * (float(np.max(Hb)) if n else 0.0) * 2
     res["meta"]["precond"] = (amp <= Hb) & (case["dt"] * wmax <= Hb) if n else np.zeros(0, bool)
+    if m[0] == "const" and n and expected == got:
+        # the same precondition on the step actually drawn, sqrt(2D)*(2u-1)*sqrt(3dt), instead of its largest
+        # possible value: after `advect`+`reflect` Z is in [0,H], so |step| <= H keeps Z+step in [-H,2H]
+        step = math.sqrt(2 * m[1]) * ((np.asarray(draws[0]) * 2 - 1) * math.sqrt(3 * case["dt"]))
+        res["meta"]["precond_actual"] = (np.abs(step) <= Hb) & (case["dt"] * wmax <= Hb)
     res["meta"]["H_after"] = env.depth(after["x"], after["y"])
     res["state"] = state
     res["ibm"] = ibm
@@ -206,6 +272,8 @@ def sed_case(rng, n=None, carrier=None):
     dt = rng.choice([1.0, 60.0, 600.0])
     mixk = rng.randrange(3)
     mixing = [None, rng.choice([1e-4, 1e-2]), dict(method="bounded_linear", max_diff=rng.choice([1e-3, 1e-2]))][mixk]
+    if mixk == 1 and rng.random() < 0.15:
+        mixing = 0                      # `vertical_mixing: 0` as a ladim.yaml carries it (constant method, no spread)
     if mixk == 1 and rng.random() < 0.5:
         mixing = dict(method="constant", value=mixing)
     tk = rng.randrange(3)
@@ -239,27 +307,98 @@ def sed_case(rng, n=None, carrier=None):
                         break
     sdt = dt if rng.random() < 0.8 else rng.choice([dt, 2 * dt])
     return dict(kind="sedimentation", env=env, dt=dt, sdt=sdt, mixing=mixing, taucrit=taucrit, carrier=carrier,
-                active=active, x=x, y=y, z=z, age=age, sink=sink, lifespan=lifespan, ub=ub, vb=vb)
+                active=active, x=x, y=y, z=z, age=age, sink=sink, lifespan=lifespan, ub=ub, vb=vb,
+                taucrit_dict=rng.random() < 0.3,      # sedimentation: taucrit given as {method: constant, value: v}
+                int_dt=rng.random() < 0.3)
 
 
 def _sed_state(case, timestep=0):
     arr = dict(X=case["x"].copy(), Y=case["y"].copy(), Z=case["z"].copy(), age=case["age"].copy(),
                sink_vel=case["sink"].copy())
     n = len(case["x"])
+    al = alive0(case)
+    al1 = np.ones(n, bool) if al is None else al
+    if case.get("no_active"):
+        # a state without an `active` variable (mine: `has_active()` is False); only the stub state can do that,
+        # the real State always adds one
+        return NumState(alive=al1, pid=np.arange(n), dt=case["sdt"], timestep=timestep, **arr)
     if case["carrier"] == "numeric":
-        return NumState(active=case["active"].copy(), alive=np.ones(n, bool), pid=np.arange(n), dt=case["sdt"],
+        return NumState(active=case["active"].copy(), alive=al1, pid=np.arange(n), dt=case["sdt"],
                         timestep=timestep, **arr)
-    st = real_state(dt=case["sdt"], timestep=timestep, active=case["active"].copy(), **arr)
+    st = real_state(dt=case["sdt"], timestep=timestep, alive=al, active=case["active"].copy(), **arr)
     return st
 
 
+OFF_BED_SPEED = 7.0
+
+
 def _sed_env_objs(case):
+    """grid / forcing stubs of a sedimentation / mine case.  `velocity` is the *bottom* current: it returns the case's
+    (ub, vb) for a particle when asked at that particle's position and at the bed there (z == depth(x, y), which is
+    what `shear_velocity_btm` asks for); asked anywhere else it returns a current that is OFF_BED_SPEED m/s stronger,
+    so that sampling the current at another depth / position changes the resuspension decisions.
+    `wvel` = w + wz*z (optional case key `wz`, default 0: constant)."""
     env = case["env"]
     grid = env.grid()
     ub, vb = case["ub"], case["vb"]
-    forcing = Obj(velocity=lambda x, y, z, tstep=0: (ub.copy(), vb.copy()),
-                  forcing=Obj(wvel=lambda x, y, z, *a, **k: np.zeros_like(np.asarray(z, float)) + case.get("w", 0.0)))
+
+    def velocity(x, y, z, tstep=0):
+        u, v = ub.copy(), vb.copy()
+        xx = np.asarray(x, dtype=float); zz = np.asarray(z, dtype=float)
+        if xx.shape == u.shape and zz.shape == u.shape:
+            off = zz != env.depth(xx, np.asarray(y, dtype=float))
+            u[off] = u[off] + OFF_BED_SPEED
+        return u, v
+
+    def wvel(x, y, z, *a, **k):
+        z = np.asarray(z, float)
+        wz = case.get("wz", 0.0)
+        if wz == 0.0:
+            return np.zeros_like(z) + case.get("w", 0.0)
+        return case.get("w", 0.0) + wz * z
+    forcing = Obj(velocity=velocity, forcing=Obj(wvel=wvel))
     return grid, forcing
+
+
+def grain_taucrit_candidates(method, grain, clon, clat, lon, lat):
+    """critical stresses of the raster cells nearest to (lon, lat) by exhaustive search over the cell centres
+    (clamped outside the raster); more than one value only when the point is (to 1e-9 relative) equally near to cells
+    with different stresses.  `method`: grain_size_bin | grain_size_poly; `grain`: [lat, lon] array"""
+    di = np.abs(lon - clon); dj = np.abs(lat - clat)
+    near_i = np.flatnonzero(di <= di.min() * (1 + 1e-9) + 1e-12)
+    near_j = np.flatnonzero(dj <= dj.min() * (1 + 1e-9) + 1e-12)
+    cand = set()
+    for i in near_i:
+        for j in near_j:
+            sed = float(grain[j, i])
+            sed = 0.0 if sed != sed else sed
+            if method == "grain_size_bin":
+                t = 0.12
+                if 0 < sed < 70:
+                    t = 0.06
+                if sed > 180:
+                    t = 0.32
+                t = float(np.float32(t))          # the bin table is kept in single precision
+            else:
+                t = 0.12 if sed == 0 else 6e-6 * sed ** 2 + 3e-5 * sed + 0.0591
+            cand.add(t)
+    return cand
+
+
+def sed_taucrit_per_particle(case, x, y):
+    """(critical stress per particle, ambiguous flags): the configured constant, or for a case with the optional key
+    `taucrit_map` = dict(method, source, varname, grain[lat, lon], clon, clat) the stress of the raster cell nearest
+    to the particle's (lon, lat) = env.lonlat(x, y)"""
+    n = len(x)
+    tm = case.get("taucrit_map")
+    if not tm:
+        return [case["taucrit"]] * n, np.zeros(n, bool)
+    lon, lat = case["env"].lonlat(x, y)
+    tcs = []; amb = np.zeros(n, bool)
+    for i in range(n):
+        c = sorted(grain_taucrit_candidates(tm["method"], tm["grain"], tm["clon"], tm["clat"], lon[i], lat[i]))
+        tcs.append(c[0]); amb[i] = len(c) > 1
+    return tcs, amb
 
 
 def _mix_toks(mixing):
@@ -280,7 +419,13 @@ def sed_run(case, seed, drv=None, inject=None, ibm=None, state=None):
         ibmconf["vertical_mixing"] = case["mixing"]
     if case["taucrit"] is not None:
         ibmconf["taucrit"] = case["taucrit"]
-    ibm = ibm or M.IBM(dict(dt=case["dt"], ibm=ibmconf))
+        if case.get("taucrit_dict"):
+            ibmconf["taucrit"] = dict(method="constant", value=case["taucrit"])
+    if case.get("taucrit_map"):
+        # optional: critical stress from a grain-size raster (the IBM reads the file when it is constructed)
+        tm = case["taucrit_map"]
+        ibmconf["taucrit"] = dict(method=tm["method"], source=tm["source"], varname=tm["varname"])
+    ibm = ibm or M.IBM(dict(dt=cfg_dt(case), ibm=ibmconf))
     state = state or _sed_state(case)
     grid, forcing = _sed_env_objs(case)
     before = dict(z=state.Z.copy(), active=np.asarray(state.active).astype(int).copy(), alive=state.alive.copy(),
@@ -318,12 +463,15 @@ def sed_run(case, seed, drv=None, inject=None, ibm=None, state=None):
         xi[a] = rec.log[-1][3]
     res["xi"] = xi
     res["mask_active"] = a
-    if drv is not None and expected == got:
+    tcs, amb = sed_taucrit_per_particle(case, case["x"], case["y"])
+    res["meta"]["tc"] = tcs
+    res["meta"]["tc_ambiguous"] = amb
+    if drv is not None and expected == got and not amb.any():
         idx = []
         for i in range(n):
             idx.append(drv.ask("sed.update", F(case["dt"]), F(case["sdt"]), F(case["lifespan"]), _mix_toks(mixing),
                                B(case["carrier"] == "numeric"), F(H[i]), F(case["ub"][i]), F(case["vb"][i]),
-                               OPT(case["taucrit"]), F(after["sink"][i]), F(xi[i]),
+                               OPT(tcs[i]), F(after["sink"][i]), F(xi[i]),
                                F(before["z"][i]), I(before["active"][i]), B(before["alive"][i]), F(before["age"][i]),
                                F(before["sink"][i])))
 
@@ -341,7 +489,7 @@ def sed_run(case, seed, drv=None, inject=None, ibm=None, state=None):
 
 
 # ======================================================================================= mine
-def mine_case(rng, n=None):
+def mine_case(rng, n=None, no_active=False):
     c = sed_case(rng, n)
     c["kind"] = "mine"
     c["vdiff"] = rng.choice([0.0, 1e-4, 1e-2])
@@ -349,6 +497,15 @@ def mine_case(rng, n=None):
     c["vadv"] = rng.random() < 0.3
     c["w"] = rng.choice([0.0, 1e-3, -1e-4])
     c["land"] = rng.choice(["freeze", "reposition"])
+    c["omit_defaults"] = rng.random() < 0.3
+    if no_active:
+        # state without an `active` variable: every particle counts as suspended; `resuspend` needs the variable,
+        # so this is a valid set-up only without resuspension (taucrit >= 1000)
+        c["no_active"] = True
+        c["carrier"] = "numeric"
+        c["taucrit"] = rng.choice([1000, 2000.0])
+        c["active"] = np.ones(len(c["x"]))
+        c["z"] = place_z(rng, c["env"].depth(c["x"], c["y"]), len(c["x"]))
     return c
 
 
@@ -357,22 +514,37 @@ def mine_run(case, seed, drv=None, inject=None, ibm=None, state=None):
     M = mod("mine")
     ibmconf = dict(lifespan=case["lifespan"], vertical_mixing=case["vdiff"], taucrit=case["taucrit"],
                    vertical_advection=case["vadv"], land_collision=case["land"])
-    ibm = ibm or M.IBM(dict(dt=case["dt"], ibm=ibmconf, output_instance=[], nc_attributes={}))
+    if case.get("omit_defaults"):
+        # keys whose value is the documented default are left out of the configuration
+        for k, dflt in (("vertical_mixing", 0.0), ("taucrit", 1000), ("vertical_advection", False),
+                        ("land_collision", "reposition")):
+            if type(ibmconf[k]) is type(dflt) and ibmconf[k] == dflt:
+                del ibmconf[k]
+    if case.get("output_file"):
+        # optional: the separate file recording the dead particles (`store`), with the variables of `output_instance`
+        ibmconf["output_file"] = case["output_file"]
+    ibm = ibm or M.IBM(dict(dt=cfg_dt(case), ibm=ibmconf, output_instance=list(case.get("output_instance", [])),
+                            nc_attributes=dict(case.get("nc_attributes", {}))))
     state = state or _sed_state(case)
     grid, forcing = _sed_env_objs(case)
-    before = dict(z=state.Z.copy(), active=np.asarray(state.active).astype(int).copy(), alive=state.alive.copy(),
+    has_active = "active" in state
+
+    def act():
+        # without the variable every particle counts as suspended (flag 1), as `IBM.active()` has it
+        return np.asarray(state.active).astype(int).copy() if has_active else np.ones(n, dtype=int)
+    before = dict(z=state.Z.copy(), active=act(), alive=state.alive.copy(),
                   age=state["age"].copy(), sink=state["sink_vel"].copy(), x=state.X.copy(), y=state.Y.copy())
     masks = {}
     orig_diffuse = ibm.diffuse
 
     def wrapped():
-        masks["a"] = (np.asarray(state.active) != 0).copy()
+        masks["a"] = (act() != 0)
         orig_diffuse()
     ibm.diffuse = wrapped
     with RngRecorder(seed, inject) as rec:
         ibm.update_ibm(grid, state, forcing)
     ibm.diffuse = orig_diffuse
-    after = dict(z=state.Z.copy(), active=np.asarray(state.active).astype(int).copy(), alive=state.alive.copy(),
+    after = dict(z=state.Z.copy(), active=act(), alive=state.alive.copy(),
                  age=state["age"].copy(), sink=state["sink_vel"].copy(), x=state.X.copy(), y=state.Y.copy())
     a = masks.get("a", np.zeros(n, bool))
     na = int(a.sum())
@@ -390,12 +562,22 @@ def mine_run(case, seed, drv=None, inject=None, ibm=None, state=None):
     res["xi"] = xi
     res["mask_active"] = a
     tc = None if case["taucrit"] >= 1000 else float(case["taucrit"])
+    # vertical current met by each particle: w + wz*z at its depth after the random walk (reflected at the surface),
+    # which is where `sink` samples it; with the default wz = 0 it is the constant `w`
+    wz = case.get("wz", 0.0)
+    wpart = np.zeros(n) + case["w"]
+    if wz != 0.0:
+        for i in range(n):
+            z1 = before["z"][i] + math.sqrt(2 * case["vdiff"]) * (xi[i] * math.sqrt(case["dt"]))
+            z1 = -z1 if z1 < 0 else z1
+            wpart[i] = case["w"] + wz * z1
+    res["meta"]["w"] = wpart
     if drv is not None and expected == got:
         idx = []
         for i in range(n):
             idx.append(drv.ask("mine.update", F(case["dt"]), F(case["sdt"]), F(case["lifespan"]), F(case["vdiff"]),
-                               OPT(tc), B(case["vadv"]), B(True), B(case["carrier"] == "numeric"),
-                               F(H[i]), F(case["ub"][i]), F(case["vb"][i]), F(case["w"]), F(xi[i]),
+                               OPT(tc), B(case["vadv"]), B(has_active), B(case["carrier"] == "numeric"),
+                               F(H[i]), F(case["ub"][i]), F(case["vb"][i]), F(wpart[i]), F(xi[i]),
                                F(before["z"][i]), I(before["active"][i]), B(before["alive"][i]), F(before["age"][i]),
                                F(before["sink"][i])))
 
@@ -419,28 +601,64 @@ def ts_env(rng):
                   lon0=rng.choice([-30.0, 5.0, 20.0]), lat0=rng.choice([45.0, 60.0, 70.0, 80.0]))
 
 
-def egg_case(rng, n=None):
+def egg_case(rng, n=None, exact_cap=False):
     n = rng.randrange(0, 9) if n is None else n
     env = ts_env(rng)
     dt = rng.choice([60.0, 600.0, 3600.0, 1000.0, 7000.0])
     z = np.array([rng.choice([0.0, 1e-9, 0.5, 10.0, 150.0, 199.0, 199.999, rng.uniform(0, 199.9)]) for _ in range(n)])
-    return dict(kind="egg", env=env, dt=dt, D=rng.choice([0.0, 1e-4, 1e-2, 1.0]),
+    case = dict(kind="egg", env=env, dt=dt, D=rng.choice([0.0, 1e-4, 1e-2, 1.0]),
                 diam=rng.choice([0.0011, 0.0014, 0.003, 0.0005]),
                 x=np.full(n, 5.0), y=np.full(n, 5.0), z=z,
                 buoy=np.array([rng.choice([20.0, 30.0, 33.0, 34.5, 35.0, 40.0]) for _ in range(n)]),
                 age=np.array([rng.uniform(0, 100) for _ in range(n)]))
+    if n and exact_cap:
+        # exact-boundary case (opt-in: it fixes the normal draw, which callers measuring the spread must not get
+        # unasked): neutrally buoyant eggs (egg_buoy == salinity, uniform water: the buoyant velocity is
+        # exactly 0) and one fixed normal draw for all, so that Z + W*dt lands exactly on the 200 m cap (must be
+        # put back to 199) or on the last double below it (must stay)
+        case["D"] = D = rng.choice([1e-4, 1e-2, 1.0])
+        env.tz = 0.0; env.sz = 0.0
+        case["buoy"] = np.full(n, env.s0)
+        xi = case["force_normal"] = rng.choice([3.0, 0.5, 8.0])
+        W = -0.0 + xi * (2 * D / dt) ** 0.5
+        below = np.nextafter(200.0, 0.0)
+        for i in range(n):
+            target = rng.choice([200.0, 200.0, below])
+            z0 = target - W * dt
+            for cand in (z0, np.nextafter(z0, 0.0), np.nextafter(z0, 300.0), np.nextafter(np.nextafter(z0, 0.0), 0.0),
+                         np.nextafter(np.nextafter(z0, 300.0), 300.0)):
+                if 0 <= cand < 200.0 and cand + W * dt == target:
+                    case["z"][i] = cand
+                    break
+    case["int_dt"] = rng.random() < 0.3
+    return case
+
+
+def forced(inject, value):
+    """injector that serves `value` for every normal draw (after the caller's own injector)"""
+    def inj(kind, params, v):
+        if inject is not None:
+            v = inject(kind, params, v)
+        if kind in ("normal", "randn"):
+            v = np.full(np.shape(v), float(value))
+        return v
+    return inj
 
 
 def egg_run(case, seed, drv=None, inject=None, ibm=None, state=None):
     n = len(case["x"])
     env = case["env"]
-    ibm = ibm or mod("egg").IBM(dict(dt=case["dt"], ibm=dict(vertical_mixing=case["D"], egg_diam=case["diam"])))
-    state = state or real_state(dt=case["dt"], X=case["x"].copy(), Y=case["y"].copy(), Z=case["z"].copy(),
-                                age=case["age"].copy(), egg_buoy=case["buoy"].copy(), temp=np.zeros(n), salt=np.zeros(n))
-    before = dict(z=state.Z.copy(), age=state["age"].copy())
+    ibm = ibm or mod("egg").IBM(dict(dt=cfg_dt(case), ibm=dict(vertical_mixing=case["D"], egg_diam=case["diam"])))
+    if case.get("force_normal") is not None:
+        inject = forced(inject, case["force_normal"])
+    state = state or real_state(dt=state_dt(case), alive=alive0(case), X=case["x"].copy(), Y=case["y"].copy(),
+                                Z=case["z"].copy(), age=case["age"].copy(), egg_buoy=case["buoy"].copy(),
+                                temp=np.zeros(n), salt=np.zeros(n))
+    before = dict(z=state.Z.copy(), age=state["age"].copy(), alive=state.alive.copy())
     with RngRecorder(seed, inject) as rec:
         ibm.update_ibm(env.grid(), state, env.forcing())
-    after = dict(z=state.Z.copy(), age=state["age"].copy(), temp=state["temp"].copy(), salt=state["salt"].copy())
+    after = dict(z=state.Z.copy(), age=state["age"].copy(), temp=state["temp"].copy(), salt=state["salt"].copy(),
+                 alive=state.alive.copy())
     expected = [("normal", (n,))] if case["D"] > 0 else []
     got = rec.schedule()
     res = dict(before=before, after=after, model=None, sched=(expected, got), meta={}, n=n, state=state, ibm=ibm)
@@ -475,6 +693,8 @@ def lice_case(rng, n=None):
     z = np.array([rng.choice([0.0, 1e-9, 0.5, 5.0, 19.0, 19.999, rng.uniform(0, 19.9)]) for _ in range(n)])
     age = np.array([rng.choice([0.0, 39.99, 40.0, 100.0, 169.99, 170.0, 171.0, rng.uniform(0, 180)]) for _ in range(n)])
     D = rng.choice([0.0, 1e-3, 1e-2])
+    omit = rng.random() < 0.3           # `vertical_mixing` left out when it has its default value (1e-3)
+    int_dt = rng.random() < 0.3
     if n and rng.random() < 0.25:
         # exact-boundary case: no mixing, fresh water (every louse swims down with +5e-4 m/s) so that
         # Z + W*dt lands exactly on the 20 m cap; ages that land exactly on 40 and 170 degree-days
@@ -496,14 +716,19 @@ def lice_case(rng, n=None):
     return dict(kind="salmon_lice", env=env, dt=dt, sdt=dt, D=D, ts=ts,
                 x=np.full(n, 5.0), y=np.full(n, 5.0), z=z, age=age,
                 days=np.array([rng.uniform(0, 20) for _ in range(n)]),
-                super=np.array([rng.choice([1.0, 100.0, 0.5]) for _ in range(n)]))
+                super=np.array([rng.choice([1.0, 100.0, 0.5]) for _ in range(n)]),
+                omit_defaults=omit, int_dt=int_dt)
 
 
 def lice_run(case, seed, drv=None, inject=None, ibm=None, state=None):
     n = len(case["x"])
     env = case["env"]
-    ibm = ibm or mod("salmon_lice").IBM(dict(dt=case["dt"], ibm=dict(vertical_mixing=case["D"])))
-    state = state or real_state(dt=case["sdt"], timestamp=case["ts"], X=case["x"].copy(), Y=case["y"].copy(),
+    conf = dict(vertical_mixing=case["D"])
+    if case.get("omit_defaults") and case["D"] == 1e-3:
+        conf = {}
+    ibm = ibm or mod("salmon_lice").IBM(dict(dt=cfg_dt(case), ibm=conf))
+    state = state or real_state(dt=case["sdt"], timestamp=case["ts"], alive=alive0(case), X=case["x"].copy(),
+                                Y=case["y"].copy(),
                                 Z=case["z"].copy(), age=case["age"].copy(), days=case["days"].copy(),
                                 super=case["super"].copy(), temp=np.zeros(n), salt=np.zeros(n))
     before = dict(z=state.Z.copy(), age=state["age"].copy(), days=state["days"].copy(), super=state["super"].copy(),
@@ -564,8 +789,8 @@ def larvae_case(rng, n=None, module=None):
         sp = dict(SPECIES[species])
         over = {}
         if rng.random() < 0.5:
-            over = dict(min_depth=rng.choice([0, 5, 30]), max_depth=rng.choice([40, 60, 200]),
-                        light=rng.choice([0.01, 1, 50]), swim_speed=rng.choice([0.05, 0.5]))
+            over = dict(min_depth=rng.choice([0, 5, 30, 2.5, 30.0]), max_depth=rng.choice([40, 60, 200, 30, 57.5, 30]),
+                        light=rng.choice([0.01, 1, 50]), swim_speed=rng.choice([0.05, 0.5]))   # min <= max, 30/30: one depth
             if rng.random() < 0.5:
                 over["hatch_day"] = rng.choice([50.0, 93.7])
         sp.update(over)
@@ -575,30 +800,57 @@ def larvae_case(rng, n=None, module=None):
     hd = float(sp["hatch_day"])
     age = np.array([rng.choice([0.0, hd - 1e-9, hd, hd + 1e-9, hd + 20, rng.uniform(0, 2 * hd)]) for _ in range(n)])
     weight = np.array([rng.choice([0.0, 0.05, 0.093, 0.5, 5.0, 200.0]) for _ in range(n)])
-    return dict(kind=module, species=species, over=over, sp=sp, env=env, dt=dt, sdt=dt, ts=ts, k=k, D=D,
+    case = dict(kind=module, species=species, over=over, sp=sp, env=env, dt=dt, sdt=dt, ts=ts, k=k, D=D,
                 x=np.full(n, 5.0), y=np.full(n, 5.0), z=z, age=age, weight=weight,
                 buoy=np.array([rng.choice([25.0, 31.0, 34.0, 36.0]) for _ in range(n)]))
+    if module == "saithe":
+        # saithe eggs are not confined to [30, 60]: they are anywhere in the water column, also right under the
+        # surface; a larva that hatched during the previous update (age just past the hatch day) is still where
+        # the egg was.  Older larvae have been clipped before and stay inside the band.
+        for i in range(n):
+            if age[i] <= hd + 1e-9 and rng.random() < 0.6:
+                z[i] = rng.choice([0.0, 1e-9, 0.5, 5.0, 29.0, 29.999999, 60.000001, 61.0, 150.0, rng.uniform(0, 200)])
+        case["spread"] = rng.random() < 0.3          # `extra_spreading` (the module's default is on)
+        x = np.array([rng.choice([5.0, 1.2, 19.8, rng.uniform(2, 19)]) for _ in range(n)])
+        case["x"] = x if case["spread"] else case["x"]
+        case["direction"] = np.array([rng.choice([0.0, 0.0, 1.0, 3.0, float("nan")]) for _ in range(n)])
+    case["omit_defaults"] = rng.random() < 0.3
+    case["int_dt"] = rng.random() < 0.3
+    return case
 
 
 def larvae_run(case, seed, drv=None, inject=None, ibm=None, state=None):
     n = len(case["x"])
     env = case["env"]
+    spread = bool(case.get("spread")) and case["kind"] == "saithe"
     if case["kind"] == "saithe":
-        ibm = ibm or mod("saithe").IBM(dict(dt=case["dt"], ibm=dict(extra_spreading=False)))
+        sconf = dict(extra_spreading=False)
+        if spread:
+            sconf = {} if case.get("omit_defaults") else dict(extra_spreading=True)
+        ibm = ibm or mod("saithe").IBM(dict(dt=cfg_dt(case), ibm=sconf))
     else:
         conf = dict(species=case["species"], extinction_coeff=case["k"], vertical_mixing=case["D"])
+        if case.get("omit_defaults"):
+            # keys whose value is the documented default are left out
+            if case["k"] == 0.2:
+                del conf["extinction_coeff"]
+            if case["D"] == 0.0:
+                del conf["vertical_mixing"]
         conf.update(case["over"])
-        ibm = ibm or mod("larvae").IBM(dict(dt=case["dt"], ibm=conf))
-    state = state or real_state(dt=case["sdt"], timestamp=case["ts"], X=case["x"].copy(), Y=case["y"].copy(),
+        ibm = ibm or mod("larvae").IBM(dict(dt=cfg_dt(case), ibm=conf))
+    direction = case["direction"].copy() if (spread and "direction" in case) else np.zeros(n)
+    state = state or real_state(dt=case["sdt"], timestamp=case["ts"], alive=alive0(case), X=case["x"].copy(),
+                                Y=case["y"].copy(),
                                 Z=case["z"].copy(), age=case["age"].copy(), weight=case["weight"].copy(),
                                 egg_buoy=case["buoy"].copy(), temp=np.zeros(n), salt=np.zeros(n),
-                                direction=np.zeros(n))
-    before = dict(z=state.Z.copy(), age=state["age"].copy(), weight=state["weight"].copy())
+                                direction=direction)
+    before = dict(z=state.Z.copy(), age=state["age"].copy(), weight=state["weight"].copy(), alive=state.alive.copy())
+    nnew = int((np.asarray(state["direction"]) == 0).sum()) if spread else 0
     with RngRecorder(seed, inject) as rec:
         ibm.update_ibm(env.grid(), state, env.forcing())
     after = dict(z=state.Z.copy(), age=state["age"].copy(), weight=state["weight"].copy(),
-                 temp=state["temp"].copy(), salt=state["salt"].copy())
-    expected = [("normal", (n,))] if case["D"] else []
+                 temp=state["temp"].copy(), salt=state["salt"].copy(), alive=state.alive.copy())
+    expected = ([("rand", (nnew,))] if spread else []) + ([("normal", (n,))] if case["D"] else [])
     got = rec.schedule()
     res = dict(before=before, after=after, model=None, sched=(expected, got), meta={}, n=n, state=state, ibm=ibm)
     from ladim_plugins.utils import light as L_
@@ -608,7 +860,9 @@ def larvae_run(case, seed, drv=None, inject=None, ibm=None, state=None):
     res["meta"]["light0"] = light0
     sp = case["sp"]
     res["meta"]["is_egg"] = before["age"] <= float(sp["hatch_day"])
-    if drv is not None and expected == got:
+    res["xi"] = rec.log[-1][3] if (case["D"] and expected == got) else None
+    # with `extra_spreading` the driver's larva.update cannot express the horizontal part: no model request
+    if drv is not None and expected == got and not spread:
         xi = rec.log[0][3] if case["D"] else None
         idx = []
         for i in range(n):
@@ -643,15 +897,22 @@ def sandeel_case(rng, n=None):
     lim = np.minimum(maxd, env.depth(x, y))
     z = place_z(rng, lim, n)
     stage = np.array([rng.choice([2.5, 3.0]) for _ in range(n)])   # past development: only vertical_diffuse acts
+    active = np.array([rng.random() < 0.8 for _ in range(n)])
+    if rng.random() < 0.5:
+        # all life stages: eggs (stage < 1, resting, some hatching during this update), drifting larvae
+        # (1 <= stage < 2, some reaching metamorphosis during this update) and settled juveniles; the flag is what
+        # the development functions left behind at the end of the previous update
+        stage = np.array([rng.choice([0.0, 0.5, 0.999, 0.999999, 1.0, 1.5, 1.999, 1.999999, 2.0, 2.5]) for _ in range(n)])
+        active = (stage >= 1) & (stage < 2)
     return dict(kind="sandeel", env=env, dt=dt, D=rng.choice([1e-5, 1e-3, 1e-1]), maxd=maxd, x=x, y=y, z=z,
-                stage=stage, active=np.array([rng.random() < 0.8 for _ in range(n)]),
-                hatch=np.array([rng.uniform(0.01, 1) for _ in range(n)]))
+                stage=stage, active=active,
+                hatch=np.array([rng.uniform(0.01, 1) for _ in range(n)]), int_dt=rng.random() < 0.3)
 
 
 def sandeel_run(case, seed, drv=None, inject=None, ibm=None, state=None):
     n = len(case["x"])
     env = case["env"]
-    ibm = ibm or mod("sandeel").IBM(dict(dt=case["dt"], ibm=dict(vertical_mixing=case["D"], max_depth=case["maxd"])))
+    ibm = ibm or mod("sandeel").IBM(dict(dt=cfg_dt(case), ibm=dict(vertical_mixing=case["D"], max_depth=case["maxd"])))
     state = state or real_state(dt=case["dt"], X=case["x"].copy(), Y=case["y"].copy(), Z=case["z"].copy(),
                                 stage=case["stage"].copy(), hatch_rate=case["hatch"].copy(),
                                 active=case["active"].copy())
@@ -660,10 +921,21 @@ def sandeel_run(case, seed, drv=None, inject=None, ibm=None, state=None):
     f = env.forcing()
     f.forcing = Obj(temp=np.full((1, 32, 32), 7.0))
     before = dict(z=state.Z.copy(), active=state.active.copy(), stage=state["stage"].copy())
-    with RngRecorder(seed, inject) as rec:
-        ibm.update_ibm(g, state, f)
+    masks = {}
+    orig_vd = ibm.vertical_diffuse
+
+    def wrapped():
+        # who takes part in the vertical random walk: the flag as the development functions of THIS update leave it
+        masks["a"] = (np.asarray(state["active"]) != 0).copy()
+        orig_vd()
+    ibm.vertical_diffuse = wrapped
+    try:
+        with RngRecorder(seed, inject) as rec:
+            ibm.update_ibm(g, state, f)
+    finally:
+        ibm.vertical_diffuse = orig_vd
     after = dict(z=state.Z.copy(), active=state.active.copy(), stage=state["stage"].copy())
-    a = before["active"] != 0
+    a = masks.get("a", before["active"] != 0)
     expected = [("normal", (int(a.sum()),))]
     got = rec.schedule()
     res = dict(before=before, after=after, model=None, sched=(expected, got), meta={}, n=n, state=state, ibm=ibm)
@@ -696,27 +968,37 @@ def sandeel_run(case, seed, drv=None, inject=None, ibm=None, state=None):
 # ======================================================================================= lunar eel (vertical)
 def eel_case(rng, n=None):
     n = rng.randrange(0, 9) if n is None else n
-    lo = rng.choice([0.0, 5.0, 50.0]); hi = lo + rng.choice([1.0, 20.0, 300.0])
+    lo = rng.choice([0.0, 5.0, 50.0]); hi = lo + rng.choice([1.0, 20.0, 300.0, 0.0])     # hi == lo: a single depth
     z = place_z(rng, hi - lo, n) + lo
     return dict(kind="lunar_eel", dt=rng.choice([60.0, 600.0, 3600.0]), D=rng.choice([1e-5, 1e-3, 1e-1]), lo=lo, hi=hi,
-                x=np.full(n, 5.0), y=np.full(n, 5.0), z=z)
+                x=np.array([rng.choice([5.0, rng.uniform(2, 19)]) for _ in range(n)]), y=np.full(n, 5.0), z=z,
+                moon=rng.random() < 0.4,            # the moon is up in the right phase: the eels also swim horizontally
+                int_limits=rng.random() < 0.3, int_dt=rng.random() < 0.3)
 
 
 def eel_run(case, seed, drv=None, inject=None, ibm=None, state=None):
     n = len(case["x"])
     M = mod("lunar_eel")
     saved = M.get_moon_function
-    M.get_moon_function = lambda lat, lon: (lambda t: False)
+    moon = bool(case.get("moon"))
+    M.get_moon_function = lambda lat, lon: (lambda t: moon)
+    lims = [case["lo"], case["hi"]]
+    if case.get("int_limits"):
+        lims = [int(v) for v in lims]               # the limits are whole metres: as ints, as a ladim.yaml has them
     try:
-        ibm = ibm or M.IBM(dict(dt=case["dt"], ibm=dict(speed=0.1, lunar_latlon=[60, 5], vertical_mixing=case["D"],
-                                                           vertical_limits=[case["lo"], case["hi"]])))
+        ibm = ibm or M.IBM(dict(dt=cfg_dt(case), ibm=dict(speed=0.1, lunar_latlon=[60, 5], vertical_mixing=case["D"],
+                                                          vertical_limits=lims)))
     finally:
         M.get_moon_function = saved
-    ibm.xs_dx = np.zeros((32, 32)); ibm.ys_dy = np.zeros((32, 32))
+    if moon:
+        # southward swimming on an unrotated 100 m grid (what `init_grid` computes for angle 0, dx = dy = 100)
+        ibm.xs_dx = np.full((32, 32), np.sin(np.pi) / 100.0); ibm.ys_dy = np.full((32, 32), np.cos(np.pi) / 100.0)
+    else:
+        ibm.xs_dx = np.zeros((32, 32)); ibm.ys_dy = np.zeros((32, 32))
     state = state or real_state(dt=case["dt"], timestamp=TS, X=case["x"].copy(), Y=case["y"].copy(), Z=case["z"].copy())
     before = dict(z=state.Z.copy())
     with RngRecorder(seed, inject) as rec:
-        ibm.update_ibm(Obj(), state, None)
+        ibm.update_ibm(LinEnv().grid() if moon else Obj(), state, None)
     after = dict(z=state.Z.copy())
     expected = [("normal", (n,))]
     got = rec.schedule()
@@ -757,24 +1039,27 @@ def shrimp_case(rng, n=None):
     q = np.array([rng.choice([0.0, rng.uniform(0.001, 1), 0.5]) for _ in range(n)])
     return dict(kind="shrimp", env=env, dt=dt, ts=ts, vm=vm, vs=vs, mind_d=mind_d, maxd_d=maxd_d, mind_n=mind_n,
                 maxd_n=maxd_n, x=np.full(n, 5.0), y=np.full(n, 5.0), z=z, stage=stage, q=q,
-                age=np.array([rng.uniform(0, 50) for _ in range(n)]))
+                age=np.array([rng.uniform(0, 50) for _ in range(n)]), int_dt=rng.random() < 0.3)
 
 
 def shrimp_run(case, seed, drv=None, inject=None, ibm=None, state=None):
     n = len(case["x"])
     env = case["env"]
     M = mod("shrimp")
-    ibm = ibm or M.IBM(dict(dt=case["dt"], ibm=dict(
+    ibm = ibm or M.IBM(dict(dt=cfg_dt(case), ibm=dict(
         vertical_mixing=case["vm"], vertical_speed=case["vs"], maxdepth_day=case["maxd_d"], maxdepth_night=case["maxd_n"],
         mindepth_day=case["mind_d"], mindepth_night=case["mind_n"], variables=["active", "stage"])))
-    state = state or real_state(dt=case["dt"], timestamp=case["ts"], X=case["x"].copy(), Y=case["y"].copy(),
+    state = state or real_state(dt=state_dt(case), timestamp=case["ts"], alive=alive0(case), X=case["x"].copy(),
+                                Y=case["y"].copy(),
                                 Z=case["z"].copy(), stage=case["stage"].copy(), depth_quantile=case["q"].copy(),
                                 age=case["age"].copy(), temp=np.zeros(n), salt=np.zeros(n), length=np.zeros(n))
-    before = dict(z=state.Z.copy(), stage=state["stage"].copy(), q=state["depth_quantile"].copy(), age=state["age"].copy())
+    before = dict(z=state.Z.copy(), stage=state["stage"].copy(), q=state["depth_quantile"].copy(), age=state["age"].copy(),
+                  alive=state.alive.copy())
     with RngRecorder(seed, inject) as rec:
         ibm.update_ibm(env.grid(), state, env.forcing())
     after = dict(z=state.Z.copy(), stage=state["stage"].copy(), q=state["depth_quantile"].copy(), age=state["age"].copy(),
-                 active=state.active.copy(), temp=state["temp"].copy(), length=state["length"].copy())
+                 active=state.active.copy(), temp=state["temp"].copy(), length=state["length"].copy(),
+                 alive=state.alive.copy())
     nq = int((before["q"] == 0).sum())
     expected = [("rand", (nq,)), ("normal", (n,))]
     got = rec.schedule()
@@ -817,7 +1102,8 @@ def shrimp_run(case, seed, drv=None, inject=None, ibm=None, state=None):
 # ======================================================================================= vps
 def vps_case(rng, n=None):
     n = rng.randrange(0, 9) if n is None else n
-    return dict(kind="vps", dt=rng.choice([60.0, 600.0]), maxd=rng.choice([2.0, 0.5, 10.0]),
+    return dict(kind="vps", dt=rng.choice([60.0, 600.0]), maxd=rng.choice([2.0, 0.5, 10.0, 2.0]),
+                omit_defaults=rng.random() < 0.5, int_dt=rng.random() < 0.3,
                 x=np.full(n, 5.0), y=np.full(n, 5.0), z=np.array([rng.uniform(0, 2) for _ in range(n)]),
                 age=np.array([rng.choice([0.0, 2.0 ** 30 - 60, 2.0 ** 30, 100.0]) for _ in range(n)]),
                 u=np.array([rng.choice([0.0, 0.14, -0.14]) for _ in range(n)]),
@@ -826,9 +1112,12 @@ def vps_case(rng, n=None):
 
 def vps_run(case, seed, drv=None, inject=None, ibm=None, state=None):
     n = len(case["x"])
-    ibm = ibm or mod("vps").IBM(dict(dt=case["dt"], ibm=dict(max_depth=case["maxd"])))
-    state = state or real_state(dt=case["dt"], X=case["x"].copy(), Y=case["y"].copy(), Z=case["z"].copy(),
-                                age=case["age"].copy())
+    conf = dict(max_depth=case["maxd"])
+    if case.get("omit_defaults") and case["maxd"] == 2.0:
+        conf = {}                                   # `max_depth` left to its default (2 m)
+    ibm = ibm or mod("vps").IBM(dict(dt=cfg_dt(case), ibm=conf))
+    state = state or real_state(dt=state_dt(case), alive=alive0(case), X=case["x"].copy(), Y=case["y"].copy(),
+                                Z=case["z"].copy(), age=case["age"].copy())
     forcing = Obj(forcing=Obj(fish_velocity=lambda x, y: (case["u"].copy(), case["v"].copy())))
     before = dict(z=state.Z.copy(), age=state["age"].copy(), alive=state.alive.copy())
     with RngRecorder(seed, inject) as rec:
